@@ -869,7 +869,7 @@ func init() {
 					}
 				}
 			}
-			good := map[*ssa.Call]bool{}       // properly fed decode calls
+			good := map[*ssa.Call]bool{}        // properly fed decode calls
 			decoder := map[*ssa.Function]bool{} // functions that contain one
 			n := 0
 			for _, g := range fns {
